@@ -139,14 +139,14 @@ def geometry(env, nx, ny):
         env.eq("C04", "geometry: normals of the other half are the mirror image", of["normals"][:, ny - 1:, :], (oh["normals"] * SM)[:, ::-1, :])
 
 
-@job("c04.drag", ("C04",), cfgs=[dict(nx=2, ny=2), dict(nx=2, ny=3, _tier=T)], cost=30,
+@job("c04.drag", ("C04",), cfgs=[dict(nx=2, ny=2), dict(nx=2, ny=2, k_lam=0.0), dict(nx=2, ny=2, k_lam=1.0), dict(nx=2, ny=3, _tier=T)], cost=30,
      ranges=[(r"re", 1e5, 1e6), (r"Mach", 0.8, 0.9), (r"t_over_c", 0.05, 0.2), (r"cos_sweep|widths|lengths|chords", 0.7, 1.3),
              (r"S_ref", 2.0, 4.0), (r"CL", 0.3, 0.6)])
-def drag(env, nx, ny):
+def drag(env, nx, ny, k_lam=0.05):
     """viscous and wave drag coefficients of the half model vs the full model, inputs related by mirror extension (the
-    relation of the inputs is proved by c04.geometry)"""
-    sh = surface(name="wing", nx=nx, ny=ny, symmetry=True, side="left")
-    sf = surface(name="wing", nx=nx, ny=2 * ny - 1, symmetry=False)
+    relation of the inputs is proved by c04.geometry); every laminar/turbulent branch of the friction estimate"""
+    sh = surface(name="wing", nx=nx, ny=ny, symmetry=True, side="left", extra=dict(k_lam=k_lam))
+    sf = surface(name="wing", nx=nx, ny=2 * ny - 1, symmetry=False, extra=dict(k_lam=k_lam))
     vh = env.comp("vH", lambda: cls("aerodynamics.viscous_drag.ViscousDrag")(surface=sh, with_viscous=True))
     vf = env.comp("vF", lambda: cls("aerodynamics.viscous_drag.ViscousDrag")(surface=sf, with_viscous=True))
     ins = vh.inputs()
